@@ -389,6 +389,50 @@ structure PendingEntry where
   op : AFTOperationC
   deriving DecidableEq, Repr, Inhabited
 
+/-- the installed IPv4 / IPv6 / MPLS entry a delete removed (`*aft.Afts_Ipv4Entry` …) as
+`DeleteEntry` looks at it -/
+structure OrigTop where
+  NextHopGroupNetworkInstance : String
+  NextHopGroup : Nat
+  Prefix : String := ""
+  /-- `GetLabel()` of a label entry (a union value; opaque here) -/
+  Label : Nat := 0
+  deriving DecidableEq, Repr, Inhabited
+
+structure OrigNHGMember where
+  Key : Nat
+  /-- `GetIndex()` of the member (ygot keeps it equal to the key) -/
+  Index : Nat := 0
+  deriving DecidableEq, Repr, Inhabited
+
+/-- the installed next-hop-group a delete removed: the keys of its next-hop map, in any order -/
+structure OrigNHG where
+  NextHop : List OrigNHGMember
+  deriving DecidableEq, Repr, Inhabited
+
+structure StringValue where
+  Value : String
+  deriving DecidableEq, Repr, Inhabited
+
+structure UintValue where
+  Value : Nat
+  deriving DecidableEq, Repr, Inhabited
+
+/-- the payload of an IPv4 / IPv6 / MPLS entry as `handleReferences` looks at it (protobuf wrappers) -/
+structure NewTop where
+  NextHopGroupNetworkInstance : Option StringValue
+  NextHopGroup : Option UintValue
+  deriving DecidableEq, Repr, Inhabited
+
+structure NewNHGMember where
+  Index : Nat
+  deriving DecidableEq, Repr, Inhabited
+
+/-- the payload of a next-hop-group as `handleNHGReferences` looks at it: its members in order -/
+structure NewNHG where
+  NextHop : List NewNHGMember
+  deriving DecidableEq, Repr, Inhabited
+
 /-- `rib.OpResult` as far as it is compared: the operation's id -/
 structure RibOpResult where
   ID : Nat
@@ -425,6 +469,16 @@ inductive Eff where
   | addMPLS (ni : String) (e : Option LabelEntryC) (replace : Bool)
   | addNHG (ni : String) (e : Option NHGEntryC) (replace : Bool)
   | addNH (ni : String) (e : Option NHEntryC) (replace : Bool)
+  | delIPv4 (ni : String) (e : Option IPv4EntryC)
+  | delIPv6 (ni : String) (e : Option IPv6EntryC)
+  | delMPLS (ni : String) (e : Option LabelEntryC)
+  | delNHG (ni : String) (e : Option NHGEntryC)
+  | delNH (ni : String) (e : Option NHEntryC)
+  /-- `decNHGRefCount(id)` / `decNHRefCount(id)` on the holder of instance `ni` -/
+  | decNHGRef (ni : String) (id : Nat)
+  | decNHRef (ni : String) (id : Nat)
+  | incNHGRef (ni : String) (id : Nat)
+  | incNHRef (ni : String) (id : Nat)
   /-- `handleReferences(r, niR, original, new)` / `r.handleNHGReferences(niR, original, new)` -/
   | handleReferences (ni : String) (orig : Option Unit) (new : Option Unit)
   | handleNHGReferences (ni : String) (orig : Option Unit) (new : Option Unit)
